@@ -407,12 +407,33 @@ func ClearRulesOfResource(res string) error {
 // BuildResourceCircuitBreaker builds CircuitBreaker slice from rules. the resource of rules must be equals to res
 func BuildResourceCircuitBreaker(res string, rulesOfRes []*Rule, oldResCbs []CircuitBreaker) []CircuitBreaker {
 	newCbsOfRes := make([]CircuitBreaker, 0, len(rulesOfRes))
+	// Old breakers that belong to a rule which is unchanged in the new list are reserved for it:
+	// they must not donate their statistic to a modified rule that happens to be listed earlier,
+	// otherwise the unchanged rule is rebuilt from scratch and loses its runtime state.
+	reserved := make(map[CircuitBreaker]bool, len(oldResCbs))
+	for _, r := range rulesOfRes {
+		for _, oldCb := range oldResCbs {
+			if !reserved[oldCb] && oldCb.BoundRule().isEqualsTo(r) {
+				reserved[oldCb] = true
+				break
+			}
+		}
+	}
 	for _, r := range rulesOfRes {
 		if res != r.Resource {
 			logging.Error(errors.Errorf("unmatched resource name expect: %s, actual: %s", res, r.Resource), "Unmatched resource name in circuitBreaker.BuildResourceCircuitBreaker()", "rule", r)
 			continue
 		}
 		equalIdx, reuseStatIdx := calculateReuseIndexFor(r, oldResCbs)
+		if equalIdx < 0 {
+			reuseStatIdx = -1
+			for idx, oldCb := range oldResCbs {
+				if !reserved[oldCb] && oldCb.BoundRule().isStatReusable(r) {
+					reuseStatIdx = idx
+					break
+				}
+			}
+		}
 
 		// First check equals scenario
 		if equalIdx >= 0 {
